@@ -137,7 +137,7 @@ def instrument(prop, beh, idx, rng):
         # a storage fault while a commit retires its parent must not lose the parent's name
         for k in range(0, 5):
             inst.save_version(out, "m1")
-            out += [{"op": "plan", "c": "m1", "fail_at": k, "kind": "err", "persistent": rng.choice([0, 1])},
+            out += [{"op": "plan", "c": "m1", "fail_mut_at": k, "kind": "err"},
                     {"op": "stmt", "c": "m1", "id": "q%d" % k, "kind": "ins", "key": "i:%d" % (6100 + k), "cols": {"a": "t:q"}, "wt": 70 + k},
                     {"op": "heal", "c": "m1"}, {"op": "refresh", "c": "m1", "when": 300 + k}]
             for lab in inst.saved[-3:]:
